@@ -2,36 +2,6 @@
 from .runner import Prop
 
 
-class C15(Prop):
-    id = "C15"
-    coq_targets = ["Properties/C15.vo", "Corr/C15.vo"]
-    props_file = "Properties/C15.v"
-    harness_cmd = "c15"
-    n = {"quick": 600, "thorough": 12000}
-    bits = {4: "effective globals differ from 'derived overrides base, removed removes'",
-            8: "lua_versions: the derived library's versions did not replace the base's"}
-    rule = ("shipped chains (from_name vs fold of the raw YAML files) + generated pairs / base chains (len<=4) / "
-            "`+` folds over keys {a,b,c,*}^<=3 with every field kind incl. removed, with/without lua_versions; "
-            "non-trivial = the libraries share a key, or one marks a key removed, or both declare versions; "
-            "distinct = distinct case descriptions")
-    trusted_base = [
-        "modelled: StandardLibrary::extend, from_builtin_name recursion, the CLI `+` fold (Std/Extend.v)",
-        "not modelled: YAML text layer, file lookup of base names on disk (selene/src/standard_library.rs from_name)",
-        "BTreeMap = association list without duplicate keys (wf_lib evaluated on every dumped library)",
-    ]
-    assumptions = ["wf_lib (no duplicate keys) for every library; holds for any BTreeMap"]
-
-    def nontrivial(self, d):
-        if d.get("kind") == "pair":
-            return d.get("shared_keys", 0) > 0 or d.get("removed", 0) > 0 or d.get("both_versions")
-        return True
-
-
-def _lint_table():
-    from . import translate
-    return translate.lint_table()
-
-
 class C08(Prop):
     id = "C08"
     coq_targets = ["Properties/C08.vo", "Corr/C08.vo"]
@@ -344,6 +314,7 @@ class C17(Prop):
 
 
 from .c19 import C19  # noqa: E402
+from .c15 import C15  # noqa: E402
 from .c16 import C16  # noqa: E402
 from .c18 import C18  # noqa: E402
 from .c20 import C20  # noqa: E402
